@@ -41,6 +41,9 @@ type caseSpec struct {
 	Store    storeCfg
 	Batch    bool
 	BaseWall int64
+	// protocol path: target namespace and the table prefix of this sequence
+	Proto       *ProtoTarget
+	TablePrefix string
 }
 
 type campaign struct {
@@ -79,6 +82,7 @@ func (cp *campaign) dir(i int) string {
 func (cp *campaign) cfgFor(spec caseSpec, dir string, st *Stats) RunCfg {
 	cfg := cp.base
 	cfg.Engine, cfg.Policy, cfg.Dir, cfg.Batch, cfg.Stats = spec.Store.Engine, spec.Store.Policy, dir, spec.Batch, st
+	cfg.Proto = spec.Proto
 	return cfg
 }
 
@@ -101,7 +105,7 @@ func (cp *campaign) one(i int, spec caseSpec) {
 	dir := cp.dir(i)
 	f, info, err := RunSeq(cp.cfgFor(spec, dir, st), spec.Ops)
 	if err != nil {
-		cp.c.Inconclusive(fmt.Sprintf("case %s: cannot open store: %v", spec.Name, err))
+		cp.c.Inconclusive(fmt.Sprintf("case %s: %v", spec.Name, err))
 		return
 	}
 	cp.c.Ev.Eval()
@@ -136,6 +140,10 @@ func (cp *campaign) one(i int, spec caseSpec) {
 	attempt := 0
 	run := func(cand []Op) *Failure {
 		attempt++
+		if spec.Proto != nil {
+			// shared server: every attempt gets fresh tables
+			cand = retable(untable(cand, spec.TablePrefix), fmt.Sprintf("%ss%d", spec.TablePrefix, attempt))
+		}
 		ff, _, err := RunSeq(cp.cfgFor(spec, fmt.Sprintf("%s-shrink%d", dir, attempt), NewStats()), cand)
 		if err != nil {
 			return nil
@@ -147,7 +155,10 @@ func (cp *campaign) one(i int, spec caseSpec) {
 		// not reproducible on a fresh store with the same signature: report the original
 		small, sf = spec.Ops, f
 	}
-	w := Witness{Check: cp.check, Engine: spec.Store.Engine, Policy: spec.Store.Policy, Batch: spec.Batch, Signature: sf.Sig,
+	if spec.Proto != nil {
+		small = untable(small, spec.TablePrefix)
+	}
+	w := Witness{Check: cp.check, Engine: spec.Store.Engine, Policy: spec.Store.Policy, Batch: spec.Batch, Proto: spec.Proto != nil, Signature: sf.Sig,
 		FailingOp: sf.OpStr, FailAt: sf.At, Detail: sf.Detail, Ops: opsStrings(small), OrigLen: len(spec.Ops), Case: spec.Name, BaseWall: spec.BaseWall}
 	summary := fmt.Sprintf("%s on %s/%s: %s  [witness: %d commands, shrunk from %d]", sf.Sig, spec.Store.Engine, spec.Store.Policy, sf.Detail, len(small), len(spec.Ops))
 	if os.Getenv("MODEL_VERBOSE") != "" {
@@ -219,6 +230,18 @@ func replayWitness(c *vc.Ctx, base RunCfg, shift func(w *Witness, ops []Op) []Op
 	smlab.QuietLogs(c.Scratch)
 	cfg := base
 	cfg.Engine, cfg.Policy, cfg.Batch = w.Engine, w.Policy, w.Batch
+	if w.Proto {
+		targets, err := protoTargets(c)
+		if err != nil {
+			return err
+		}
+		for i := range targets {
+			if targets[i].Engine == w.Engine && targets[i].Policy == w.Policy {
+				cfg.Proto = &targets[i]
+			}
+		}
+		ops = retable(ops, "replay")
+	}
 	cfg.Dir = filepath.Join(c.Scratch, "replay")
 	cfg.Stats = NewStats()
 	f, _, err := RunSeq(cfg, ops)
